@@ -101,6 +101,9 @@ def setup_pool():
         sys.path.append(d)
         sys.dont_write_bytecode = True
         _state["dir"] = d
+        import atexit
+        import shutil
+        atexit.register(shutil.rmtree, d, True)   # leave nothing behind under /tmp
     import importlib
     importlib.invalidate_caches()
     if "c09pool_loaded" not in sys.modules:
